@@ -38,6 +38,9 @@ def check(repo: Repo, R) -> None:
     shared.owner_only_writes(repo, R, "C01.9-conns-owner-api",
                              why="a pass that rewrites conns without updating the back-reference set leaves stale or missing _connected_ports entries that later passes follow")
     from . import c04
+    from . import c02 as _c02
+    _c02.live_passes(repo, shared.Retag(R, lambda r, k: "C01.16-pass-order" if "<" in k.split("::")[-1] else None,
+                                        "a connection is rewritten by a pass that runs before the pass producing what it consumes: nets are merged (a NoConn on a Pair port shorts p and n) or split"))
     c04.pairing(repo, shared.Retag(R, lambda r: "C01.9-conns-owner-api",
                                    "a replaced port reference / bundle keeps its back-reference: ResolvePortRefs or BundleFlattener later follow it and short the re-connected port onto the old net"))
     total_loops(repo, R, noret)
